@@ -181,13 +181,13 @@ func limitFieldLoad(v ssa.Value, field string) ssa.Value {
 // copyOfField: v = big.NewInt(0).Set(<obj>.<field>) (or new(big.Int).Set); returns obj.
 func copyOfField(v ssa.Value, field string) ssa.Value {
 	call, ok := core.Unwrap(v).(*ssa.Call)
-	if !ok || core.CalleeName(&call.Call) != "(*math/big.Int).Set" || len(call.Call.Args) != 2 {
+	if !ok || core.CalleeName(core.NormCall(&call.Call)) != "(*math/big.Int).Set" || len(core.NormCall(&call.Call).Args) != 2 {
 		return nil
 	}
-	if owned, _ := stateOwnedShallow(call.Call.Args[0]); owned {
+	if owned, _ := stateOwnedShallow(core.NormCall(&call.Call).Args[0]); owned {
 		return nil
 	}
-	return limitFieldLoad(call.Call.Args[1], field)
+	return limitFieldLoad(core.NormCall(&call.Call).Args[1], field)
 }
 
 // stateOwnedShallow: the receiver of Set is itself a field load (not a fresh big.Int).
@@ -259,8 +259,8 @@ func checkRemoveLimitOrder(c *core.Ctx, rl *ssa.Function) {
 			continue
 		}
 		vol := resolveRet(r, 1)
-		if call, ok := core.Unwrap(vol).(*ssa.Call); ok && core.CalleeName(&call.Call) == "math/big.NewInt" {
-			if k, ok := core.ConstInt(call.Call.Args[0]); ok && k == 0 {
+		if call, ok := core.Unwrap(vol).(*ssa.Call); ok && core.CalleeName(core.NormCall(&call.Call)) == "math/big.NewInt" {
+			if k, ok := core.ConstInt(core.NormCall(&call.Call).Args[0]); ok && k == 0 {
 				continue // "nothing to refund"
 			}
 		}
@@ -307,8 +307,8 @@ func checkRemoveLimitOrder(c *core.Ctx, rl *ssa.Function) {
 	told := false
 	for _, s := range core.Sites(rl) {
 		if methodName(s) == "AddCoin" {
-			if neg, ok := core.Unwrap(s.Arg(1)).(*ssa.Call); ok && core.CalleeName(&neg.Call) == "(*math/big.Int).Neg" {
-				if obj := copyOfField(neg.Call.Args[1], "WantSell"); obj != nil && core.Unwrap(obj) == core.Unwrap(closed) {
+			if neg, ok := core.Unwrap(s.Arg(1)).(*ssa.Call); ok && core.CalleeName(core.NormCall(&neg.Call)) == "(*math/big.Int).Neg" {
+				if obj := copyOfField(core.NormCall(&neg.Call).Args[1], "WantSell"); obj != nil && core.Unwrap(obj) == core.Unwrap(closed) {
 					told = true
 				}
 			}
@@ -337,10 +337,10 @@ func returnsZeroOnly(b *ssa.BasicBlock) bool {
 		return false
 	}
 	call, ok := core.Unwrap(resolveRet(r, 1)).(*ssa.Call)
-	if !ok || core.CalleeName(&call.Call) != "math/big.NewInt" {
+	if !ok || core.CalleeName(core.NormCall(&call.Call)) != "math/big.NewInt" {
 		return false
 	}
-	k, ok := core.ConstInt(call.Call.Args[0])
+	k, ok := core.ConstInt(core.NormCall(&call.Call).Args[0])
 	return ok && k == 0
 }
 
@@ -381,7 +381,7 @@ func checkExpire(c *core.Ctx, exp, rl *ssa.Function) {
 	gated := false
 	for _, f := range c.FactsAt(credit.Instr, 0) {
 		if cf, ok := f.AsCall(); ok && cf.MethodName() == "Sign" && ((cf.Op == token.EQL && cf.Const == 0 && !f.Truth) || (cf.Op == token.NEQ && cf.Const == 0 && f.Truth)) {
-			if extractOf(cf.Call.Call.Args[0], rm.Value(), 1) {
+			if extractOf(core.NormCall(&cf.Call.Call).Args[0], rm.Value(), 1) {
 				gated = true
 			}
 		}
